@@ -206,6 +206,56 @@ def part_walk(ctx, racebin, known):
     return res
 
 
+def scalibr_race(report):
+    """Is an access stack of this race report inside osv-scalibr code (as opposed to third-party only)?"""
+    secs = re.findall(r"^(?:Read|Write|Previous read|Previous write) at .*?:\n((?:\s+\S.*\n)+)", report["text"], re.M)
+    return any("osv-scalibr/" in sec or "/repo/" in sec for sec in secs) or not secs
+
+
+def part_strategy(ctx, racebin):
+    """The real override / relax strategies, concurrent attempts on one package, resolve client handing out one
+    shared unsorted slice per package (as resolve.LocalClient does), under the race detector."""
+    args = [racebin, "-mode", "strategy", "-seed", str(ctx.seed), "-tier", ctx.tier]
+    rc, out = vlib.sh(args, timeout=900)
+    runs, pending, per_run_reports = [], [], []
+    # race reports are printed when detected, i.e. before the summary line of the run they belong to
+    pos = 0
+    for m in re.finditer(r"^strategy-run: (\{.*\})$", out, re.M):
+        reps = parse_race_reports(out[pos:m.start()])
+        pos = m.end()
+        runs.append(json.loads(m.group(1)))
+        per_run_reports.append(reps)
+    tail_reports = parse_race_reports(out[pos:])
+    res = {"runs": len(runs), "rc": rc,
+           "concurrent_attempts": sum(r.get("concurrent_attempts", 0) for r in runs),
+           "shared_slices_handed_out": sum(r.get("shared_slices_handed_out", 0) for r in runs),
+           "runs_with_error": sum(1 for r in runs if r.get("err")),
+           "race_reports": sum(len(x) for x in per_run_reports) + len(tail_reports),
+           "third_party_only_reports_ignored": 0, "sample": runs[0] if runs else None}
+    if rc not in (0, 66) or not runs:
+        ctx.violation({"kind": "strategy-harness-failed", "log": out[-2500:]}, nofail=True)
+        return res
+    nviol = 0
+    for r, reps in zip(runs, per_run_reports):
+        ours = [x for x in reps if scalibr_race(x)]
+        res["third_party_only_reports_ignored"] += len(reps) - len(ours)
+        if (ours or r.get("client_state_modified")) and nviol < 3:
+            nviol += 1
+            ctx.violation({"kind": "strategy-race-or-client-state-modified", "part": "strategy", "universe": r["universe"],
+                           "client_state_modified": r.get("client_state_modified"),
+                           "race_frames": [x["frames"] for x in ours[:4]], "report": ours[0]["text"] if ours else None,
+                           "explanation": "the %s strategy's concurrent patch attempts (common.ComputePatches fan-out) were run against a "
+                                          "resolve client that hands out one shared, unsorted version slice per package; the race detector "
+                                          "reported a data race with osv-scalibr frames and/or the slice the client handed out was modified"
+                                          % r["universe"]["strategy"]})
+    for x in tail_reports:
+        if scalibr_race(x) and nviol < 3:
+            nviol += 1
+            ctx.violation({"kind": "data-race", "part": "strategy", "frames": x["frames"], "report": x["text"]})
+    res["violations"] = nviol
+    return res
+
+
 # ----------------------------------------------------------------------------------------------- known findings
 def kf_compare(ctx, binp, entry):
     """Patch.Compare cycle: replay on result.Patch.Compare (npm semver) and on the model."""
@@ -335,6 +385,8 @@ def run(ctx):
     else:
         race_res = part_walk(ctx, racebin, known.get("walk-status-ticker-data-race"))
         ctx.log("walk under -race: %s" % {k: race_res[k] for k in race_res if k != "matched_frames"})
+        race_res["strategy"] = part_strategy(ctx, racebin)
+        ctx.log("strategies under -race: %s" % {k: race_res["strategy"][k] for k in race_res["strategy"] if k != "sample"})
         # the same schedules under the race detector: any report here is a violation; in the thorough tier the
         # traces observed under -race are validated against the model as well
         ev = ctx.tier == "thorough"
@@ -437,6 +489,11 @@ def run(ctx):
 def replay(ctx, path):
     obj = json.load(open(path))
     part = obj.get("part") or (obj.get("case") or {}).get("part") or "cache"
+    if part == "strategy":
+        racebin, out = ctx.harness_build("sched", race=True)
+        rc, out = vlib.sh([racebin, "-mode", "strategy", "-replay", path])
+        print(out[-8000:])
+        return 0
     if part == "walk":
         racebin, out = ctx.harness_build("sched", race=True)
         rc, out = vlib.sh([racebin, "-mode", "walk", "-walk-ms", "2600"])
